@@ -227,6 +227,11 @@ class Builder:
 
         self._mem_mgr: MemoryManager = MemoryManager()
 
+        # Measurement outcomes kept in a register (`RegFuture`) by the subroutine that
+        # is being built. The connection reads them once that subroutine has run: the
+        # same M registers are handed out again to the next subroutine.
+        self._pending_reg_futures: List[RegFuture] = []
+
         # Open EPR contexts: loop register -> (the block's FutureQubit, the handles
         # that reserve the virtual IDs of the block's pairs)
         self._epr_context_qubits: Dict[
@@ -1274,6 +1279,7 @@ class Builder:
             elif isinstance(future, RegFuture):
                 future.reg = outcome_reg
                 self._mem_mgr.add_register_to_return(outcome_reg)
+                self._pending_reg_futures.append(future)
                 outcome_commands = []
             else:
                 outcome_commands = []
